@@ -380,6 +380,8 @@ func extractC13(c *ctxT) {
 		}
 	}
 	fmt.Fprintf(&sb, "/-- `if _, err = GetUnbondingDelegation(…); %s { return … }` -/\ndef unbondUbdTest : UbdTest := %s\n\n", ubdSrc, ubd)
+	c13RefreshFacts(c, &sb)
+	c13AddFacts(c, &sb)
 	sb.WriteString("end FxVerif.Gen.C13\n")
 	c.write("C13.lean", sb.String())
 	c.facts["C13.bridgeCallSlashArg"] = loops["bridgeCallSlashing"].argSrc
@@ -526,6 +528,7 @@ func extractC07(c *ctxT) {
 	}
 	sort.Strings(fns)
 	fmt.Fprintf(&sb, "/-- functions reachable from `Keeper.EndBlocker` (name-based call graph) -/\ndef endBlockerFns : List String := %s\n\n", leanList(fns))
+	c07GovFacts(c, &sb)
 	sb.WriteString("end FxVerif.Gen.C07\n")
 	c.write("C07.lean", sb.String())
 	c.facts["C07.sites"] = fs
